@@ -1,7 +1,8 @@
 CONSTANTS
   Cfgs <- BatchCfgs
   Kinds = {"ok", "servfail", "formerr", "tc", "garbage", "nx"}
-  Faults = {"none", "sendto", "socket"}
+  Faults = {"none", "sendto"}
+  Copies = {1, 3}
   Nests = {"none", "query", "cancel", "setservers"}
 INIT GInit
 NEXT GNext
